@@ -390,7 +390,7 @@ func (m *genModel) genStep(t *rapid.T, p int, setup bool) (Step, bool) {
 	}
 	var cs []cand
 	if len(m.held[p]) > 0 {
-		cs = append(cs, cand{"remove", 6}, cand{"export", 3}, cand{"read", 1})
+		cs = append(cs, cand{"remove", 6}, cand{"export", 3}, cand{"read", 1}, cand{"ckpt", 2})
 	}
 	if len(m.slots) > 0 {
 		cs = append(cs, cand{"attach", 7})
@@ -437,7 +437,7 @@ func (m *genModel) genStep(t *rapid.T, p int, setup bool) (Step, bool) {
 		m.addSlot(k)
 		m.open[k] = true
 		return Step{Op: op, File: f}, true
-	case "read":
+	case "read", "ckpt":
 		return Step{Op: op, File: rapid.SampledFrom(m.held[p]).Draw(t, "file")}, true
 	case "closeh":
 		var ks []int
